@@ -234,6 +234,11 @@ impl Cx {
     pub fn range(&mut self, lo: u8, hi: u8, p: usize) -> Option<usize> {
         match self.byte(p) { Some(b) if lo <= b && b <= hi => Some(p + 1), _ => { self.fail(p); None } }
     }
+    /// character range over scalar values (multi-byte characters included)
+    pub fn range_c(&mut self, lo: char, hi: char, p: usize) -> Option<usize> {
+        let c = if p <= self.t.n { core::str::from_utf8(&self.t.sym[p..self.t.n]).ok().and_then(|s| s.chars().next()) } else { None };
+        match c { Some(c) if lo <= c && c <= hi => Some(p + c.len_utf8()), _ => { self.fail(p); None } }
+    }
     pub fn anychar(&mut self, p: usize) -> Option<usize> { if p < self.t.n { Some(p + 1) } else { self.fail(p); None } }
     pub fn eoi(&mut self, p: usize) -> Option<usize> { if p == self.t.n { Some(p) } else { self.fail(p); None } }
     pub fn check(&mut self, i: usize, key: u16, at: usize) -> bool {
